@@ -55,6 +55,10 @@ def main():
         else:
             rc, out = sh(['git', '-C', wt, 'status', '--porcelain', '--untracked-files=no'])
             assert rc == 0 and not out.strip(), 'worktree not clean: ' + out
+            rc, head = sh(['git', '-C', '/repo', 'rev-parse', 'HEAD'])
+            rc, out = sh(['git', '-C', wt, 'checkout', '-q', '--detach', head.strip()])
+            assert rc == 0, out
+            res['head'] = head.strip()[:10]
         env = dict(os.environ, PYTHONPATH=wt, PYTHONDONTWRITEBYTECODE='1')
         rc, out = sh([PY, os.path.join(src, 'demo.py')], cwd=wt, env=env, timeout=600)
         res['demo_without'] = rc
